@@ -150,6 +150,7 @@ func (sc *Scenario) Main(o Options) int {
 	// behaves nondeterministically (e.g. a sync.Pool) and breaks the property is
 	// reported as the violation it is.
 	nondet := ""
+	var early []found
 	for i := 0; i < 24 && i < n; i++ {
 		var a, b *Violation
 		var ca, cb *Ctx
@@ -175,6 +176,9 @@ func (sc *Scenario) Main(o Options) int {
 		sa, sb := "", ""
 		if a != nil {
 			sa = a.Sig
+			// remembered: for code under test with process-wide state the very
+			// first execution in the process may be the only one that shows it
+			early = append(early, found{uint64(i), a, append([]uint64{}, ca.T.Record()...)})
 		}
 		if b != nil {
 			sb = b.Sig
@@ -187,6 +191,17 @@ func (sc *Scenario) Main(o Options) int {
 	}
 
 	res := sc.RunAll(o.Seed, o.Thorough, n, o.Workers)
+	for _, e := range early {
+		dup := false
+		for _, f := range res.Found {
+			if f.v.Sig == e.v.Sig {
+				dup = true
+			}
+		}
+		if !dup {
+			res.Found = append([]found{e}, res.Found...)
+		}
+	}
 
 	exit := 0
 	violations := 0
